@@ -210,9 +210,9 @@ func init() {
 			"every path; rest seeded random. distinct = distinct (value, path, modes, chain); non-trivial = value contains one of the five specials",
 		N: func(tier string) int {
 			if tier == "thorough" {
-				return nVals*len(c03Paths) + len(c03AllChains)*len(c03Paths)*4 + 400000
+				return nVals*len(c03Paths) + len(c03AllChains)*len(c03Paths)*4 + 6000000
 			}
-			return nVals*len(c03Paths) + len(c03AllChains)*len(c03Paths) + 12000
+			return nVals*len(c03Paths) + len(c03AllChains)*len(c03Paths) + 200000
 		},
 		Run: func(ctx *fw.Ctx, i int) fw.Result {
 			r := ctx.Rng
